@@ -1490,6 +1490,17 @@ def rule_owner(ctx, classes=SKETCH_CLASSES):
                    "dropping the last reference to an owner runs __del__ (nothing keeps the object alive behind the user's back)",
                    not keep, "" if not keep else "%s in %s holds a strong reference to `self` (or a bound method of it): the owner is never "
                    "collected before interpreter exit, so its segment stays in the system" % (keep[0][2], keep[0][0].qualname))
+        # `__del__` that merely delegates (`def __del__(self): self.close()`): the release code is judged where it lives
+        for _ in range(2):
+            core = [x for x in d.node.body if not (isinstance(x, ast.Expr) and isinstance(x.value, ast.Constant)) and not isinstance(x, ast.Pass)]
+            if len(core) == 1 and isinstance(core[0], ast.Expr) and isinstance(core[0].value, ast.Call) and not core[0].value.args \
+                    and not core[0].value.keywords and isinstance(core[0].value.func, ast.Attribute) and dotted(core[0].value.func.value) == "self":
+                tgt = cls.resolve(core[0].value.func.attr)
+                if tgt is None:
+                    break
+                d = tgt
+            else:
+                break
         if d.key in seen:
             continue
         seen.add(d.key)
@@ -1655,8 +1666,11 @@ def rule_argsdict(ctx, classes=SKETCH_CLASSES):
             # the factory maps this literal back to this class (on every path that decided cms_type == literal)
             cm_classes = {c.name for c in F.classes(COUNTMIN)}
             tp = "cms_type" if "cms_type" in fac.params else (fac.params[0] if fac.params else "cms_type")
-            target = dispatch_table(F.walk(fac), is_param(tp), cm_classes).get(lit)
+            dtab = dispatch_table(F.walk(fac), is_param(tp), cm_classes)
+            target = dtab.get(lit)
             okk = target == {cls.name}
+            if not dtab:
+                okk = None          # the factory decides on its type string in a way the analysis does not read at all
             if lit is None and tv is not None:
                 okk = None          # the recorded type is not a literal here (a value handed in): not decided
             ctx.ob("argsdict", ctor, tv or d[0].stmt, "cms_type=%r -> %s" % (lit, sorted(target) if target else None),
@@ -1750,11 +1764,20 @@ def rule_attach_table(ctx):
         res.append((bool(okk), "%s(**%s)" % (called_name(e), argp) if okk else
                     "the sketch is rebuilt from something other than the recorded arguments `%s` as they are (filtered, copied or "
                     "extended arguments can differ from the owner's: e.g. a dropped num_reserved=0)" % argp, fact_strs(e)))
+    if not res:
+        # no call of a factory by name: a call through a local callable that receives exactly `**args` is a table-driven dispatch the
+        # analysis does not read (undecided); anything else has no factory call at all
+        via_var = [n for n in walk_no_nested(asm.node) if isinstance(n, ast.Call) and isinstance(n.func, ast.Name) and not n.args
+                   and len(n.keywords) == 1 and n.keywords[0].arg is None and isinstance(n.keywords[0].value, ast.Name) and n.keywords[0].value.id == argp]
+        res = [(None, "the factory is called through the variable `%s`: table-driven dispatch not read" % via_var[0].func.id, [])] if via_var \
+            else [(False, "no factory call", [])]
     agg(ctx, "attach-table", asm, fcalls[0].node if fcalls else asm.node, "%s(**%s)" % ("<factory>", argp),
-        "attach_shared_memory constructs the local sketch with exactly the owner's recorded arguments", res or [(False, "no factory call", [])])
+        "attach_shared_memory constructs the local sketch with exactly the owner's recorded arguments", res)
     want = {"cms": ("CountMin", "CountMinLinear"), "hh": ("HeavyHitters", "HeavyHitters"), "hll": ("HyperLogLog", "HyperLogLog")}
     for tag, (fac, cname) in want.items():
         okk = t2f.get(tag) == fac
+        if not dt:
+            okk = None          # no decision on the tag is readable at all (e.g. a lookup helper over a table): not decided
         ctx.ob("attach-table", asm, asm.node, "%r -> %s" % (tag, t2f.get(tag)), "attach_shared_memory builds tag %r with %s(**args)" % (tag, fac), okk)
         okk = c2t.get(cname) == tag
         ctx.ob("attach-table", pm, pm.node, "%s -> %r" % (cname, c2t.get(cname)), "parallel_merging tags %s instances %r (inverse of the factory table)" % (cname, tag), okk)
@@ -1780,7 +1803,14 @@ def rule_attach_table(ctx):
                     # the element used is the one created in this iteration: index == loop variable of the enclosing for
                     if okk:
                         loops = [l for l in walk_no_nested(fn.node) if isinstance(l, ast.For) and is_inside(fn.node, n, l)]
-                        okk = bool(loops) and isinstance(loops[-1].target, ast.Name) and unparse(a_obj.slice) == loops[-1].target.id
+                        sl = a_obj.slice
+                        last = (isinstance(sl, ast.UnaryOp) and isinstance(sl.op, ast.USub) and isinstance(sl.operand, ast.Constant) and sl.operand.value == 1) \
+                            or (isinstance(sl, ast.Constant) and sl.value == -1)
+                        okk = bool(loops) and isinstance(loops[-1].target, ast.Name) and unparse(sl) == loops[-1].target.id
+                        if not okk and last and loops:
+                            # `arr[-1]`: the element this iteration appended just before (an append to the role's list earlier in the same loop body)
+                            from .rules_par import _appends
+                            okk = any(name == arr and is_inside(fn.node, node, loops[-1]) and comes_before(fn.node, node, n) for name, v, node in _appends(fn))
                     elif arr is not None and isinstance(a_obj, ast.Name) and isinstance(s_obj, ast.Name) and a_obj.id == s_obj.id:
                         # ... or the object itself: the local that this iteration appended to the role's list
                         from .rules_par import _appends
@@ -2562,6 +2592,10 @@ def rule_writer_api(ctx, classes=SKETCH_CLASSES):
                 writes.append(n)
             elif d in PURE_PATH_CALLS or (isinstance(n.func, ast.Attribute) and n.func.attr in PURE_PATH_METHODS):
                 continue
+            elif d == "print" or d.startswith(("logging.", "warnings.")) or (isinstance(n.func, ast.Attribute) and isinstance(n.func.value, ast.Name)
+                                                                             and n.func.value.id in ("logger", "log", "_logger", "_log", "LOGGER", "LOG")
+                                                                             and n.func.attr in ("debug", "info", "warning", "error", "exception", "critical", "log")):
+                continue          # the name is only printed / logged
             else:
                 others.append((n, d))
         okk = len(writes) == 1 and writes[0].args and {x.id for x in ast.walk(writes[0].args[0]) if isinstance(x, ast.Name)} & taint
